@@ -22,16 +22,16 @@ RULE = ("case = (exponential model drawn in the documented box, maturity T, 41-p
         "(BS cases), VG = CGMY(y=0) parametrisation, scalar = vector strikes, price(product) = call/put/forward; non-trivial = "
         "ladder on which the call varies by more than 1e-3 S; distinct = distinct (model, T)")
 BOX = {
-    "HEM": "sigma in [0.1,0.4], p in [0.2,0.8], eta1 in [8,60], eta2 in [5,60], intensity in [0.2,5], T in [0.1,2]",
-    "MERTON": "sigma in [0.1,0.4], mu_j in [0,0.15], sigma_j in [0.05,0.25], intensity in [0.2,5], T in [0.1,2]",
-    "VG": "sigma in [0.1,0.4], nu in [0.05,0.5], theta in [-0.3,0.1], T in [max(0.5, 1.5 nu), 2]",
-    "CGMY": "y in [0.5,0.95] u {1}: c in [0.3,1.5], g in [3,30], m in [5,40]; y in [1.05,1.2]: c in [0.3,1], g in [6,30], m in [8,40]; T in [0.5,2]",
+    "HEM": "sigma in [0.1,0.4], p in [0.2,0.8], eta1 in [8,60], eta2 in [5,60], intensity in [0.2,5], T in [0.1,3]",
+    "MERTON": "sigma in [0.1,0.4], mu_j in [0,0.15], sigma_j in [0.05,0.25], intensity in [0.2,5], T in [0.1,3]",
+    "VG": "sigma in [0.1,0.4], nu in [0.05,0.5], theta in [-0.3,0.1], T in [max(0.5, 1.5 nu), 3]",
+    "CGMY": "y in [0.5,0.95] u {1}: c in [0.3,1.5], g in [3,30], m in [5,40]; y in [1.05,1.2]: c in [0.3,1], g in [6,30], m in [8,40]; T in [0.5,3]",
     "BS": "sigma in [0.05,0.6], T in [0.05,3]",
 }
 ASSUMPTIONS = ["documented parameter box (empirical, with a 10x margin on every tolerance): " + "; ".join(f"{k}: {v}" for k, v in BOX.items()),
                "spot in [5,500], r in [0,0.1], d in [0,0.06]; strikes inside the middle 40% of COS's own [a,b]"]
 REQUIRED_COUNTERS = ["parity_checks", "bound_checks", "convexity_checks", "digital_checks", "density_checks", "cos_vs_fft",
-                     "cos_vs_blackscholes", "vg_vs_cgmy", "scalar_vs_vector", "price_product_checks", "closed_form_without_volatility"]
+                     "cos_vs_blackscholes", "vg_vs_cgmy", "scalar_vs_vector", "price_product_checks", "closed_form_without_volatility", "prices_after_representation_change"]
 MIN_NONTRIVIAL = {"quick": 25, "thorough": 250}
 THOROUGH_ROUNDS = 3      # the thorough tier runs the generators this many times (different seeds)
 SHARD_TIMEOUT = {"quick": 900, "thorough": 7200}
@@ -53,13 +53,13 @@ def gen_spec(rng, fam):
     mkt = {"spot": _lu(rng, 5, 500), "r": _u(rng, 0.0, 0.1), "d": _u(rng, 0.0, 0.06), "exp": True}
     if fam == "HEM":
         p = {"sigma": _u(rng, 0.1, 0.4), "p": _u(rng, 0.2, 0.8), "eta1": _lu(rng, 8, 60), "eta2": _lu(rng, 5, 60), "intensity": _lu(rng, 0.2, 5)}
-        T = _lu(rng, 0.1, 2)
+        T = _lu(rng, 0.1, 3)
     elif fam == "MERTON":
         p = {"sigma": _u(rng, 0.1, 0.4), "mu_j": _u(rng, 0.0, 0.15), "sigma_j": _lu(rng, 0.05, 0.25), "intensity": _lu(rng, 0.2, 5)}
-        T = _lu(rng, 0.1, 2)
+        T = _lu(rng, 0.1, 3)
     elif fam == "VG":
         p = {"sigma": _u(rng, 0.1, 0.4), "nu": _lu(rng, 0.05, 0.5), "theta": _u(rng, -0.3, 0.1)}
-        T = _lu(rng, max(0.5, 1.5 * p["nu"]), 2)
+        T = _lu(rng, max(0.5, 1.5 * p["nu"]), 3)
     elif fam == "CGMY":
         br = int(rng.integers(3))
         y = _u(rng, 0.5, 0.95) if br == 0 else (1.0 if br == 1 and rng.random() < 0.3 else _u(rng, 1.05, 1.2))
@@ -67,7 +67,7 @@ def gen_spec(rng, fam):
             p = {"c": _lu(rng, 0.3, 1.0), "g": _lu(rng, 6, 30), "m": _lu(rng, 8, 40), "y": y}
         else:
             p = {"c": _lu(rng, 0.3, 1.5), "g": _lu(rng, 3, 30), "m": _lu(rng, 5, 40), "y": y}
-        T = _lu(rng, 0.5, 2)
+        T = _lu(rng, 0.5, 3)
     else:
         p = {"sigma": _u(rng, 0.05, 0.6)}
         T = _lu(rng, 0.05, 3)
@@ -85,6 +85,8 @@ def gen_cases(tier, seed):
     fams = ["HEM", "MERTON", "VG", "CGMY", "BS"]
     for i in range(n):
         spec, T = gen_spec(rng, fams[i % 5])
+        if i % 4 == 3:
+            T = _u(rng, 2.0, 3.0)       # long maturities, every family
         cases.append({"spec": spec, "T": T, "seed": int(rng.integers(2**31))})
     return cases
 
@@ -180,6 +182,23 @@ def run_case(case, R):
             want_p = df * np.maximum(np.array(kk) - F, 0.0)
             judge("bs-closed-form-without-volatility", max(np.max(np.abs(c0 - want_c)), np.max(np.abs(p0 - want_p))) / S, "parity",
                   f"closed form with sigma = {sig0} differs from the price of the deterministic stock df (F - K)^+", "closed_form_without_volatility")
+    if fam != "BS":
+        # the same process with its triplet re-declared in another representation (what the Markov-chain processes do with their copy of
+        # the model): the characteristic function, hence every price, is the one of the same process
+        from rpylib.model.levymodel.levymodel import LevyRepresentation
+
+        m2 = W.build_model(spec)
+        trip = m2.levy_model.levy_triplet
+        fv = bool(m2.levy_model.jump_of_finite_variation())
+        reps = [r_ for r_ in (["CENTER", "ONEONE", "TILDE"] + (["ZERO"] if fv else [])) if r_ != trip.representation.name]
+        rep = str(rng.choice(reps))
+        try:
+            trip.set_representation(getattr(LevyRepresentation, rep))
+            c3 = COSPricer(m2).call(ks, T)
+            judge(f"price-changes-with-the-declared-representation", np.max(np.abs(c3 - call)) / S, "parity",
+                  f"COS call after set_representation({rep}) on the model's triplet differs from the call of the model as built", "prices_after_representation_change")
+        except Exception as exc:  # noqa: BLE001
+            R.violation(f"{fam}-pricing-after-representation-change-raises", f"{label}: {type(exc).__name__}: {exc}", wit)
     if fam == "VG":
         p = spec["params"]
         s2 = p["sigma"] ** 2
